@@ -379,6 +379,18 @@ def body_diagonalised(case, ctx):
                   np.trace(a), np.trace(b), rtol=0, atol=1e-10 * kappa * sc * n, word=w)
         ctx.close("diagonalised: rho(w)^T D rho(w) = D", a.T @ D @ a, D, rtol=0,
                   atol=1e-10 * kappa * sc ** 2, word=w)
+    # the canonical representation with the same documented keyword: the dual of the
+    # diagonalised geometric representation, so it preserves D as well
+    cand = G.canonical_representation(diagonalize=True)
+    Rc = gens(cand, names, ctx, "canonical(diagonalize=True)", n)
+    check_relations(ctx, "canonical(diagonalize=True)", Rc, M)
+    for i in range(n):
+        nr = max(1.0, np.linalg.norm(Rd[i], 2))
+        ctx.close("canonical(diagonalize=True)[s] is the inverse transpose of "
+                  "geometric(diagonalize=True)[s]", Rc[i] @ Rd[i].T, np.eye(n), rtol=0,
+                  atol=1e-10 * kappa * nr ** 2, i=i)
+        ctx.close("canonical(diagonalize=True)[s] preserves diag(-1.., +1..)",
+                  Rc[i].T @ D @ Rc[i], D, rtol=0, atol=1e-10 * kappa * nr ** 2, i=i)
     if neg != 1:
         ctx.label("skipped-hyperbolic:signature")
         return
@@ -427,6 +439,23 @@ def body_diagonalised(case, ctx):
                   "the reflection has a spacelike normal", normal=nv)
     Rh = [np.asarray(hyp[[nm]].matrix).T for nm in names]
     check_relations(ctx, "hyperbolic", Rh, M)
+    # the walls of all generators at once: unit normals with Gram matrix (up to the sign of
+    # each normal) the cosine matrix
+    walls = hyperbolic.Hyperplane.from_reflection(hyp.isometries([[nm] for nm in names]))
+    ctx.check(tuple(walls.shape) == (n,), "composite of walls: shape", got=walls.shape)
+    nv = np.array(walls.spacelike_vector, dtype=float)
+    ctx.check(nv.shape == (n, n), "composite of walls: normals", got=nv.shape)
+    sq = np.einsum("ij,jk,ik->i", nv, J, nv)
+    ctx.check(np.all(sq > 0), "walls of the generators have spacelike normals", sq=sq)
+    un = nv / np.sqrt(np.abs(sq))[:, None]
+    gram = un @ J @ un.T
+    ctx.close("|Gram matrix| of the generators' wall normals is |cos(pi/m_ij)|", np.abs(gram),
+              np.abs(B), rtol=0, atol=1e-8 * kappa ** 2 * max(
+                  1.0, max(np.linalg.norm(r_, 2) for r_ in Rh)) ** 2)
+    for i in range(n):
+        Ri = np.asarray(walls[i].reflection_across().matrix).T
+        ctx.close("reflection across wall i of the composite is generator i", Ri, Rh[i], rtol=0,
+                  atol=1e-8 * kappa ** 2 * max(1.0, np.linalg.norm(Rh[i], 2)) ** 2, i=i)
     for w in case["words"]:
         if not w:
             continue
@@ -701,9 +730,16 @@ def body_triangle(case, ctx):
         if orders[k] <= 0:
             ctx.small("vertex with an infinite label is ideal (lightlike)", nn, 1e-6, k=k,
                       v=v)
+            # ... and the library's own predicate agrees (measured |<v,v>|/|v|^2 <= 1e-10 over
+            # all triples with labels in {2..12, inf}; the predicate's threshold is 1e-8)
+            ctx.check(bool(hyperbolic.lightlike(V[k] / np.linalg.norm(V[k]))),
+                      "hyperbolic.lightlike() denies that the vertex at an infinite label is "
+                      "ideal", k=k, v=V[k], norm=nn)
         else:
             ctx.check(nn < -1e-9, "vertex with a finite label is an interior point", k=k, v=v,
                       norm=nn)
+            ctx.check(not bool(hyperbolic.lightlike(v)) and bool(hyperbolic.timelike(v)),
+                      "library predicates: a vertex with a finite label is timelike", k=k, v=v)
     for k in range(3):
         if orders[k] <= 0:
             continue
@@ -728,6 +764,15 @@ def body_triangle(case, ctx):
             ctx.close("angle between the library's unit tangents at a vertex is pi/m",
                       float(t1.angle(t2)), math.pi / orders[k], rtol=0, atol=1e-6, k=k,
                       pqr=[p, q, r])
+        # all three at once, on the composite the library returned (its own representatives,
+        # which need not lie on one sheet of the hyperboloid)
+        nxt = fp[[1, 2, 0]]
+        prv = fp[[2, 0, 1]]
+        angs = np.asarray(fp.unit_tangent_towards(nxt).angle(fp.unit_tangent_towards(prv)),
+                          dtype=float)
+        ctx.check(angs.shape == (3,), "composite angle shape", got=angs.shape)
+        ctx.close("angles of the composite of the three vertices are pi/p, pi/q, pi/r", angs,
+                  np.array([math.pi / m for m in orders]), rtol=0, atol=1e-6, pqr=[p, q, r])
     # the three mirrors: each generator fixes the two vertices on its wall
     gens_ = hyp.isometries(["a", "b", "c"])
     gm = np.asarray(gens_.matrix)
